@@ -177,6 +177,11 @@ func VerifC05_Concat_H_MT()  { verifC05Concat(-4, -2, "") }
 func VerifC05_Concat_H_S()   { verifC05Concat(-4, -1, "") }
 func VerifC05_Concat_MT_H()  { verifC05Concat(-2, -4, "ns") }
 
+// a shaped line (rejected for most bytes) next to an event, both orders; free bytes before an event
+func VerifC05_Concat_S_ET() { verifC05Concat(-1, -3, "") }
+func VerifC05_Concat_ET_S() { verifC05Concat(-3, -1, "ns") }
+func VerifC05_Concat_3_ET() { verifC05Concat(3, -3, "") }
+
 func VerifC05_ConcatTwin() {
 	verifC05Concat(3, 3, "")
 	verifAssert(false, "twin-false")
